@@ -493,8 +493,8 @@ def gen_fn(out, unit, f, sf, meta, probe):
         tmp = Out()
         hid = '%s.hint%d' % (fnq, hk + 1)
         hprops = ins.props if ins.props is not None else default_props
-        if any(re.search(r'\bassert\b', l) for l in ins.text):
-            ci[hid] = {'fn': fnq, 'kind': 'proof', 'props': hprops, 'text': 'inserted ghost assertion(s): ' + ' '.join(' '.join(ins.text).split())[:200]}
+        if any(re.search(r'\bassert\b|\blemma_\w+\s*\(', l) for l in ins.text):
+            ci[hid] = {'fn': fnq, 'kind': 'proof', 'props': hprops, 'text': 'inserted ghost assertion(s) / lemma call(s): ' + ' '.join(' '.join(ins.text).split())[:200]}
         for l in ins.text:
             tmp.add('        ' + l.rstrip(), {'kind': 'proof', 'fn': fnq, 'clause': hid, 'props': hprops})
         if ins.where == 'start':
